@@ -5,6 +5,11 @@
 (*      XY<blank>path            X = index status, Y = work tree status    *)
 (*      XY<blank>old -> new      for renames / copies                      *)
 (* in FIXED COLUMNS: X and Y may themselves be blanks ( " M", "M ", "??"). *)
+(* A path that contains a blank, a quote, a backslash, a control or a      *)
+(* non-ASCII byte is printed as a C string literal: "..." with \" \\ \t \n  *)
+(* and \ooo octal escapes for bytes; paths are therefore BYTE sequences     *)
+(* (UTF-8) in this module.  Deviation s22 (repaired: off): the quoted       *)
+(* spelling was compared with the configured path as it stands.            *)
 (* `hg status` prints  C<blank>path  with a one-letter code.               *)
 (* An update that commits is blocked iff                                   *)
 (*   - without --allow-dirty: any path is not clean, except untracked      *)
@@ -14,22 +19,44 @@
 (***************************************************************************)
 EXTENDS BVText
 
+\* the path a quoted field denotes
+IsQuoted(p) == Len(p) >= 2 /\ p[1] = 34 /\ p[Len(p)] = 34
+RECURSIVE Unesc(_)
+Unesc(t) == IF t = <<>> THEN <<>>
+            ELSE IF t[1] # 92 \/ Len(t) = 1 THEN <<t[1]>> \o Unesc(Tail(t))
+            ELSE IF Len(t) >= 4 /\ t[2] \in 48..51 /\ t[3] \in 48..55 /\ t[4] \in 48..55
+                 THEN <<(t[2] - 48) * 64 + (t[3] - 48) * 8 + (t[4] - 48)>> \o Unesc(SubSeq(t, 5, Len(t)))
+            ELSE LET c == t[2]
+                     v == CASE c = 110 -> 10 [] c = 116 -> 9 [] c = 114 -> 13 [] c = 97 -> 7 [] c = 98 -> 8 [] c = 102 -> 12 [] c = 118 -> 11 [] OTHER -> c
+                 IN <<v>> \o Unesc(SubSeq(t, 3, Len(t)))
+GitPath(p, s22) == IF IsQuoted(p) /\ ~s22 THEN Unesc(SubSeq(p, 2, Len(p) - 1)) ELSE p
+\* the way git spells a path (bytes) in a porcelain line
+NeedsQuote(b) == \E q \in 1..Len(b) : b[q] < 33 \/ b[q] > 126 \/ b[q] \in {34, 92}
+Oct(n) == <<92, 48 + (n \div 64), 48 + ((n \div 8) % 8), 48 + (n % 8)>>
+RECURSIVE Esc(_)
+Esc(b) == IF b = <<>> THEN <<>> ELSE (CASE b[1] = 34 -> <<92, 34>> [] b[1] = 92 -> <<92, 92>> [] b[1] = 9 -> <<92, 116>> [] b[1] = 10 -> <<92, 110>>
+                                        [] b[1] < 32 \/ b[1] > 126 -> Oct(b[1]) [] OTHER -> <<b[1]>>) \o Esc(Tail(b))
+GitSpelling(b) == IF NeedsQuote(b) THEN <<34>> \o Esc(b) \o <<34>> ELSE b
+
 \* one porcelain line -> [xy |-> two code points, paths |-> sequence of paths]; hg lines have a one-letter code
 ArrowAt(t) == LET o == Occurrences(t, <<32, 45, 62, 32>>) IN IF o = {} THEN 0 ELSE CHOOSE q \in o : \A r \in o : q <= r
-ParseLine(line, tool) ==
+ParseLineD(line, tool, s22) ==
   IF tool = "hg" THEN [xy |-> <<line[1], 32>>, paths |-> <<SubSeq(line, 3, Len(line))>>]
   ELSE LET xy == SubSeq(line, 1, 2) rest == SubSeq(line, 4, Len(line)) a == ArrowAt(rest) IN
        IF (xy[1] \in {82, 67} \/ xy[2] \in {82, 67}) /\ a > 0          \* R / C : old -> new
-       THEN [xy |-> xy, paths |-> <<SubSeq(rest, 1, a - 1), SubSeq(rest, a + 4, Len(rest))>>]
-       ELSE [xy |-> xy, paths |-> <<rest>>]
+       THEN [xy |-> xy, paths |-> <<GitPath(SubSeq(rest, 1, a - 1), s22), GitPath(SubSeq(rest, a + 4, Len(rest)), s22)>>]
+       ELSE [xy |-> xy, paths |-> <<GitPath(rest, s22)>>]
+ParseLine(line, tool) == ParseLineD(line, tool, FALSE)
 IsUntracked(e) == e.xy = <<63, 63>> \/ e.xy = <<63, 32>>
-Entries(lines, tool) == [q \in 1..Len(lines) |-> ParseLine(lines[q], tool)]
+EntriesD(lines, tool, s22) == [q \in 1..Len(lines) |-> ParseLineD(lines[q], tool, s22)]
+Entries(lines, tool) == EntriesD(lines, tool, FALSE)
 Touches(e, paths) == \E q \in 1..Len(e.paths) : e.paths[q] \in paths
 \* does the dirty check block a committing update
-Blocks(lines, tool, patternPaths, allowDirty) ==
-  LET es == Entries(lines, tool) IN
+BlocksD(lines, tool, patternPaths, allowDirty, s22) ==
+  LET es == EntriesD(lines, tool, s22) IN
   \/ \E q \in 1..Len(es) : Touches(es[q], patternPaths)
   \/ (~allowDirty /\ \E q \in 1..Len(es) : ~IsUntracked(es[q]))
+Blocks(lines, tool, patternPaths, allowDirty) == BlocksD(lines, tool, patternPaths, allowDirty, FALSE)
 \* untracked files that carry no pattern never block
 OnlyUntrackedOthers(lines, tool, patternPaths) ==
   LET es == Entries(lines, tool) IN \A q \in 1..Len(es) : IsUntracked(es[q]) /\ ~Touches(es[q], patternPaths)
